@@ -5,8 +5,47 @@ HERE = os.path.dirname(os.path.dirname(os.path.abspath(__file__)))
 table = json.load(open(os.path.join(HERE, "tools", "manifest_table.json")))
 props = [json.loads(l)["id"] for l in open(os.path.join(HERE, "properties.jsonl"))]
 checks, na = [], []
+import importlib, sys
+sys.path.insert(0, HERE)
+sys.path.insert(1, "/repo")
+
+
+def derived_row(pid):
+    """Row derived from the harness module's own metadata (docstring, BOUNDS, OUTSIDE, engines)."""
+    if not os.path.exists(os.path.join(HERE, "harness", pid + ".py")):
+        return None
+    try:
+        mod = importlib.import_module("harness." + pid)
+    except Exception as e:  # noqa: BLE001
+        print("cannot import harness", pid, repr(e)[:200])
+        return None
+    items = getattr(mod, "__verif_items__", [])
+    if not items:
+        return None
+    engines = sorted({it.engine for it in items})
+    doc = " ".join((mod.__doc__ or "").split())
+    level = getattr(mod, "LEVEL", "other")
+    tech = {
+        "xh": "CrossHair symbolic execution (z3) of the real functions",
+        "rx": "z3 regular-language queries built from the live regex objects",
+        "coop": "symbolic-schedule bounded model checking (CrossHair/z3 over AST-rewritten real source)",
+        "fp": "z3/cvc5 IEEE-754 query translated from the live AST",
+        "sx": "z3-backed symbolic execution of the real bytecode",
+    }
+    technique = "; ".join(tech.get(e, e) for e in engines if not e.endswith("validation"))
+    return {
+        "engine": "+".join(engines),
+        "category": level,
+        "technique": getattr(mod, "TECHNIQUE", technique),
+        "text": getattr(mod, "CLAIM", doc)[:1500],
+        "note": ("bounds: " + str(getattr(mod, "BOUNDS", "")) + " | outside the claim: " + str(getattr(mod, "OUTSIDE", "")) + " | assumptions: " + "; ".join(getattr(mod, "ASSUMPTIONS", [])))[:2500],
+    }
+
+
 for pid in props:
     row = table.get(pid)
+    if row is None and pid in table.get("_auto", []):
+        row = derived_row(pid)
     if row is None or row.get("not_applicable"):
         na.append({"property_id": pid, "reason": (row or {}).get("not_applicable", "check not built yet (work in progress)")})
         continue
